@@ -1,7 +1,7 @@
 #!/bin/bash
 # Runs every claimed check once (quick tier) on the current tree, two streams in parallel
 # (light harness crates / heavy ones), and prints a summary.  Used before committing evidence.
-cd /verif
+cd /verif; mkdir -p /tmp/scratch
 python3 - <<'PY' > /tmp/scratch/final_groups.txt
 import json, os, sys
 sys.path.insert(0, 'lib')
